@@ -426,6 +426,17 @@ var c19Sites = []c19Site{
 	{"while-condition-call-value-used", func(e func(string) string, t string) ([]string, string) {
 		return []string{"more = (c, k) -> {\nif k >= 1 {\nz = " + e("c") + "\n}\nk < 5\n}", "scan = (c) -> {\nk = 0\nwhile more(c, k) {\nk = k + 1\nk * 2\n}\n}", "outer = (c) -> scan(c)"}, "outer(" + t + ")"
 	}, true},
+	// more active calls than any listing could be tempted to shorten
+	{"depth-130-recursive", func(e func(string) string, t string) ([]string, string) {
+		return []string{"fr = (c, d) -> if d <= 0 {\n" + e("c") + "\n} else {\nfr(c, d - 1)\n}"}, "fr(" + t + ", 129)"
+	}, true},
+	{"depth-130-inside-generator", func(e func(string) string, t string) ([]string, string) {
+		return []string{"fr = (c, d) -> if d <= 0 {\n" + e("c") + "\n} else {\nfr(c, d - 1)\n}", "gd = (c) -> {\nyield 1\nz = fr(c, 110)\nyield 2\n}", "ud = (c) -> {\nw = 0\nfor e <- gd(c) {\nw = w + e\n}\nw\n}"}, "ud(" + t + ")"
+	}, true},
+	// the failing instruction word occurs again right next to it
+	{"same-operation-twice", func(e func(string) string, t string) ([]string, string) {
+		return []string{"tw = (c, k) -> {\na = " + e("c") + "\nb = " + e("c") + "\na\n}", "tx = (c) -> [tw(c, 1), tw(c, 1)]"}, "tx(" + t + ")"
+	}, true},
 	{"multi-byte-string-parameters", func(e func(string) string, t string) ([]string, string) {
 		return []string{"fp = (c, label, note) -> " + e("c"), "fq = (c, label) -> fp(c, label + \"語\", [\"ab日本語のテキスト\", \"é\"])"}, "fq(" + t + ", \"ab日本語のテキスト\")"
 	}, true},
@@ -436,7 +447,18 @@ var c19Sites = []c19Site{
 
 func padName(i int) string { return gen.PadName(i) }
 
-func (C19) Cases(t core.Tier) int     { return len(c19Classes) * len(c19Sites) * 2 * 2 }
+// c19Twins: the failing instruction (local operands only, so the 64-bit word is the same) occurs
+// twice within the listing window; exactly one line may be marked.
+var c19Twins = [][2]string{
+	{"pair = (k, c) -> [k / c, k / c]", "pair(7, 0)"},
+	{"pair = (k, c) -> {\nx = k[c]\ny = k[c]\nx\n}", "pair([1, 2], 5)"},
+	{"pair = (k, c) -> {\nx = k + c\ny = k + c\nx\n}", "pair(\"s\", 1)"},
+	{"pair = (k, c) -> {\nx = -k\ny = -k\nx + c\n}", "pair(\"s\", 1)"},
+}
+
+func (C19) Cases(t core.Tier) int {
+	return len(c19Classes)*len(c19Sites)*2*2 + len(c19Twins)*2
+}
 func (C19) Exhaustive(core.Tier) bool { return true }
 
 // runC19 executes defs + failing statement in the real session and the model and compares the report.
@@ -517,6 +539,17 @@ func runC19(defs []string, stmt string, stdin string, repl bool, r *core.Result,
 
 func (C19) RunCase(i int) core.Result {
 	var r core.Result
+	if tbl := len(c19Classes) * len(c19Sites) * 2 * 2; i >= tbl {
+		tw := c19Twins[(i-tbl)/2]
+		repl := (i-tbl)%2 == 0
+		h := &Hist{Flavour: flavour(repl), Notes: "the failing instruction word occurs twice within the listing"}
+		runC19([]string{tw[0]}, tw[1], "", repl, &r, h)
+		r.Key = uint64(core.NewHash().Str("twin").Int(i))
+		r.TraceHash = r.Key
+		r.Sample = h
+		r.Inc("site.failing-word-twice-in-window", 1)
+		return r
+	}
 	repl := i%2 == 0
 	i /= 2
 	viaStdin := i%2 == 1
